@@ -6,8 +6,7 @@ open Jrpc.Gen.Facts
 /-- the per-connection goroutine: newService, Assigner, (on failure: close the channel), Start, a
 watcher calling Stop, WaitStatus, Finish — in this order, each once -/
 theorem loop_call_sequence :
-    loopCalls = ["newService()", "svc.Assigner()", "ch.Close()", "jrpc2.NewServer(assigner, serverOpts).Start(ch)",
-      "srv.Stop()", "srv.WaitStatus()", "svc.Finish(assigner, stat)"] := by decide
+    loopCalls = ["newService", "Assigner", "Close", "Start", "Stop", "WaitStatus", "Finish"] := by decide
 
 /-- the wait group is raised before the goroutine is started and waited for before Loop returns -/
 theorem loop_waits : loopWg = (true, true) := by decide
